@@ -121,6 +121,7 @@ def main(argv=None):
     ap.add_argument("--no-shrink", action="store_true")
     ap.add_argument("--dump-digests", action="store_true")
     ap.add_argument("--emit-cases", action="store_true")
+    ap.add_argument("--runlist", default=None)    # comma separated run indices executed in this order in one interpreter
     a = ap.parse_args(argv)
 
     out = os.fdopen(os.dup(1), "w")
@@ -185,6 +186,31 @@ def main(argv=None):
             v = o["violation"]
         emit({"type": "replay", "violation": v, "trace_digest": (o or {}).get("trace_digest"),
               "steps": ((o or {}).get("extra") or {}).get("steps")})
+        return 0
+
+    # ---------------- run-list mode: a violation that depends on what ran earlier in the same interpreter -------------
+    if a.runlist is not None:
+        runs = [int(x) for x in a.runlist.split(",") if x != ""]
+        v = None
+        at = None
+        for run in runs:
+            try:
+                case = driver.generate(ctx, run)
+                o = guarded(lambda: driver.execute(ctx, case), a.run_budget)
+                v = o["violation"]
+            except SimStall:
+                v = {"cls": a.prop + ".stall", "msg": "stall", "attrs": {}, "step": None}
+            except Exception as e:
+                o = sut_exception_outcome(a, e)
+                if o is None:
+                    emit({"type": "error", "msg": traceback.format_exc()})
+                    return 2
+                v = o["violation"]
+            if v is not None and v["cls"] not in known:
+                at = run
+                break
+            v = None
+        emit({"type": "runlist", "violation": v, "at": at})
         return 0
 
     # ---------------- search mode ----------------
